@@ -522,6 +522,9 @@ class Splicer:
                     txt_after += ' proof { assert(%s); /*@%s*/ }' % (atext, m)
                 ins(lp['span'][1], txt_after, {'rule': 'R8'})
                 self.g.count('R8')
+            if spec.get('after_loop_proof'):
+                ins(lp['span'][1], ' ' + spec['after_loop_proof'], {'rule': 'R8'})
+                self.g.count('R8')
             if spec.get('body_epilogue'):
                 # ghost text before the closing brace of the loop body (a unit tail expression gets a `;` from the text itself)
                 ins(lp['body'][1] - 1, ' ' + spec['body_epilogue'] + ' ', {'rule': 'R8'})
@@ -681,6 +684,9 @@ class Splicer:
         pieces.append(('ins', 'use vstd::prelude::*;\n', {'glue': 'head'}))
         for pf in u.prelude_files:
             pieces.append(('ins', open(pf).read() + '\n', {'glue': 'prelude ' + pf}))
+        for dyn in getattr(u, 'dynamic_preludes', []):
+            # prelude text computed from the build of /repo (e.g. the features a dependency was compiled with)
+            pieces.append(('ins', dyn(getattr(self, 'build_info', {})) + '\n', {'glue': 'dynamic prelude'}))
         pieces.append(('ins', 'verus!{\n' + u.extra_uses + (u.header.get(u.root_file, '') if u.root_file else ''), {'glue': 'verus open'}))
         pieces += root_pieces
         pieces.append(('ins', (u.appendix.get(u.root_file, '') if u.root_file else '') + '\n} // verus!\nfn main(){}\n', {'glue': 'verus close'}))
